@@ -578,6 +578,10 @@ def run_C04(ctx):
     ctx.l2_phase("ufunc-scalars-deep", "Session", consts, ("l2replay", "h_c04"), invariants=["Closed"],
                  require_actions=["UfuncOp", "WrapRegular", "WrapListOffset", "WrapList", "WrapBitMasked"],
                  sample_cases=(30000 if q else 400000), timeout=1200)
+    # ListArrays with four lists over four distinct leaves: permuted, repeated and skipped lists (carried contents)
+    consts = session_consts(OpSet='{"ufunc"}', LeafSet='{Numpy("int64", <<1, 2, 3, 4>>)}', MaxDepth="1", MaxLen="4", Classes='{"List"}')
+    ctx.l2_phase("ufunc-listarray-orderings", "Session", consts, ("l2replay", "h_c04"), invariants=["Closed"],
+                 require_actions=["UfuncOp", "WrapList"], sample_cases=(25000 if q else 250000), timeout=1200)
     return ctx.finish(rule="case = (one or two layouts, scalar, ufunc/operator/broadcast_arrays form); executed through numpy ufuncs / Python "
                            "operators / ak.broadcast_arrays of /repo's Python layer; rectilinear pairs are additionally compared with NumPy itself",
                       assumptions=[L2_TRUSTED, "unions and records under ufuncs are outside this model (Unspec / must raise)",
@@ -585,3 +589,32 @@ def run_C04(ctx):
 
 
 RUNNERS["C04"] = run_C04
+
+
+# ------------------------------------------------------------------ C16 (buffers / pickle / NumPy / Arrow) -- Python layer (L2)
+def run_C16(ctx):
+    ctx.build_l2()
+    q = ctx.quick()
+    consts = session_consts(OpSet='{"buffers"}', LeafSet=MIXED_LEAVES, MaxDepth="2", MaxLen="2", Classes=ALL_CLASSES)
+    ctx.l2_phase("converters-all-encodings", "Session", consts, ("l2replay", "h_c16"), invariants=["Closed", "BuffersInv"],
+                 require_actions=["BuffersOp", "WrapRegular", "WrapListOffset", "WrapList", "WrapBitMasked", "WrapByteMasked", "WrapIndexed"],
+                 sample_cases=(6000 if q else 150000), timeout=1500)
+    consts = session_consts(OpSet='{"buffers","aux"}', LeafSet=leafset(2), MaxDepth="2", MaxLen="2", MaxNodes="4",
+                            Classes='{"ListOffset","IndexedOption","Record","Union","Regular"}')
+    ctx.l2_phase("converters-records-unions", "Session", consts, ("l2replay", "h_c16"), invariants=["Closed", "BuffersInv"],
+                 constraint="SmallEnough", require_actions=["BuffersOp", "WrapRecord", "WrapUnion"],
+                 sample_cases=(4000 if q else 100000), timeout=1500)
+    consts = session_consts(OpSet='{"buffers"}', LeafSet=STR_LEAVES, MaxDepth="1", MaxLen="2",
+                            Classes='{"ListOffset","List","IndexedOption","Indexed","Regular"}')
+    ctx.l2_phase("converters-strings", "Session", consts, ("l2replay", "h_c16"), invariants=["Closed", "BuffersInv"],
+                 require_actions=["BuffersOp"], sample_cases=(2000 if q else 50000), timeout=1500)
+    return ctx.finish(rule="case = one layout; on it: to_buffers/from_buffers (dict, bytes-only and custom-key containers), pickle, a "
+                           "2-way partitioning through buffers and pickle, to_numpy/from_numpy when rectilinear, to_arrow/from_arrow with "
+                           "seeded list_to32/string_to32 and pyarrow's own to_pylist",
+                      assumptions=[L2_TRUSTED, "pyarrow 25 / NumPy 2.x are newer than the 2021 code base (environment drift is reported, not hidden)",
+                                   "virtual arrays: the C++ VirtualArray is exercised at L1 only; datetime/complex leaves not in this model",
+                                   "Arrow conversion of UNION types is executed nowhere (the model's unions have members of the same type, which "
+                                   "to_arrow/from_arrow of this version and pyarrow 25 do not round-trip; not triaged), and pickled unions are compared by value only"])
+
+
+RUNNERS["C16"] = run_C16
